@@ -126,6 +126,9 @@ def reads_of(func, var):
             if isinstance(k, int) and not isinstance(k, bool):
                 need = k + 1 if k >= 0 else -k
                 out.append((n, need, norm(n), ('IndexError', 'LookupError', 'Exception')))
+            elif isinstance(n.slice, ast.Name):
+                # index held in a local: needs the relational guard len(var) > name (checked in check())
+                out.append((n, ('rel', n.slice.id), norm(n), ('IndexError', 'LookupError', 'Exception')))
         elif isinstance(n, ast.Call) and isinstance(n.func, ast.Attribute) and _is(n.func.value, var) and n.func.attr == 'pop':
             out.append((n, 1, norm(n), ('IndexError', 'LookupError', 'Exception')))
         elif isinstance(n, ast.Call) and norm(n.func) in ('struct.unpack_from', 'unpack_from') and len(n.args) >= 2 and _is(n.args[1], var):
@@ -206,6 +209,120 @@ def return_bound(prog, func):
     return min(bounds) if bounds else 0
 
 
+def pad_to(value, var):
+    """`v += (N - len(v)) * b"\\0"`: pads v to at least N byte (a negative count multiplies to the empty string)."""
+    from .q import match
+    b = match(value, '($N - len($V)) * $B')
+    if b is not None and norm(b['V']) == var:
+        n, fill = try_const(b['N']), try_const(b['B'])
+        if isinstance(n, int) and isinstance(fill, (bytes, bytearray)) and len(fill) == 1:
+            return n
+    return None
+
+
+def source_bound(sources, text):
+    """Bound guaranteed for the value of an assignment: exact text key, or a key 're:<regex>' matching the whole text."""
+    import re
+    if text in sources:
+        return sources[text]
+    for k, v in sources.items():
+        if k.startswith('re:') and re.fullmatch(k[3:], text):
+            return v
+    return 0
+
+
+INF = 10 ** 9
+
+
+def maxlen_states(cfg, var, base=INF):
+    """Forward dataflow: proven upper bound of len(var) on entry of every CFG node (join = maximum)."""
+    ub_edges = {}
+    for expr, tn in cfg.test_nodes.items():
+        if not isinstance(expr, ast.Compare) or len(expr.ops) != 1:
+            continue
+        l, r, op = expr.left, expr.comparators[0], type(expr.ops[0])
+        if norm(l) != 'len(%s)' % var:
+            continue
+        if op in (ast.In, ast.NotIn) and isinstance(r, (ast.Tuple, ast.List, ast.Set)):
+            vals = [try_const(e) for e in r.elts]
+            if vals and all(isinstance(v, int) for v in vals):
+                ub_edges[(tn, 'true' if op is ast.In else 'false')] = max(vals)
+            continue
+        n = try_const(r)
+        if not isinstance(n, int) or isinstance(n, bool):
+            continue
+        if op is ast.Eq:
+            ub_edges[(tn, 'true')] = n
+        elif op is ast.NotEq:
+            ub_edges[(tn, 'false')] = n
+        elif op is ast.Gt:
+            ub_edges[(tn, 'false')] = n
+        elif op is ast.GtE:
+            ub_edges[(tn, 'false')] = n - 1
+        elif op is ast.Lt:
+            ub_edges[(tn, 'true')] = n - 1
+        elif op is ast.LtE:
+            ub_edges[(tn, 'true')] = n
+    base_name = var.split('.')[0].split('[')[0]
+    sets = {}
+    for n in cfg.nodes:
+        a = n.ast
+        if a is None:
+            continue
+        if n.kind == 'stmt' and isinstance(a, (ast.Assign, ast.AnnAssign)):
+            tg = a.targets if isinstance(a, ast.Assign) else [a.target]
+            for t in tg:
+                for x in ast.walk(t):
+                    if (isinstance(x, ast.Name) and x.id == base_name and isinstance(x.ctx, ast.Store)) or (norm(x) == var and isinstance(getattr(x, 'ctx', None), ast.Store)):
+                        ub = INF
+                        v = getattr(a, 'value', None)
+                        if norm(t) == var and isinstance(v, ast.Subscript) and isinstance(v.slice, ast.Slice):
+                            lo = try_const(v.slice.lower) if v.slice.lower is not None else 0
+                            hi = try_const(v.slice.upper) if v.slice.upper is not None else None
+                            if isinstance(lo, int) and isinstance(hi, int) and 0 <= lo <= hi:
+                                ub = hi - lo
+                        sets[n] = ub
+        if n.kind == 'stmt' and isinstance(a, ast.AugAssign) and any(norm(x) == var or (isinstance(x, ast.Name) and x.id == base_name) for x in ast.walk(a.target)):
+            k = pad_to(a.value, var) if isinstance(a.op, ast.Add) and norm(a.target) == var else None
+            sets[n] = ('pad', k) if k is not None else INF
+        if n.kind == 'for' and any(isinstance(x, ast.Name) and x.id == base_name for x in ast.walk(a.target)):
+            sets[n] = INF
+        if n.kind in ('stmt', 'test'):
+            for c in walk_no_nested(a):
+                if isinstance(c, ast.Call) and isinstance(c.func, ast.Attribute) and _is(c.func.value, var) and c.func.attr in ('append', 'extend', 'insert'):
+                    sets[n] = INF
+    state = {cfg.entry: base}
+    work = [cfg.entry]
+    while work:
+        n = work.pop()
+        out = state[n]
+        if n in sets:
+            sv = sets[n]
+            out = max(out, sv[1]) if isinstance(sv, tuple) else sv
+        for m, lab in n.succ:
+            v = min(out, ub_edges.get((n, lab), INF))
+            old = state.get(m)
+            new = v if old is None else max(old, v)
+            if old is None or new > old:
+                state[m] = new
+                work.append(m)
+    return state
+
+
+def exact_unpacks(func, var):
+    """Whole-buffer `unpack(<constant format>, var)`: needs len(var) == calcsize(format)."""
+    out = []
+    for n in walk_no_nested(func.node):
+        if isinstance(n, ast.Call) and norm(n.func) in ('unpack', 'struct.unpack') and len(n.args) == 2 and _is(n.args[1], var):
+            fmt = try_const(n.args[0])
+            if isinstance(fmt, str):
+                try:
+                    out.append((n, struct.calcsize(fmt), norm(n)))
+                except struct.error:
+                    pass
+    return out
+
+
 def minlen_states(cfg, var, extra, sources=None, base=0):
     """Forward dataflow: proven lower bound of len(var) on entry of every CFG node (E4 core).  Guards raise the bound on
     their passing edge, pop() lowers it by one, `del v[a:b]` by the constant width, re-binding resets it (or sets the bound
@@ -221,6 +338,7 @@ def minlen_states(cfg, var, extra, sources=None, base=0):
     pops = {}
     dels = {}
     rebinds = {}
+    pads = {}
     for n in cfg.nodes:
         a = n.ast
         if a is None:
@@ -254,33 +372,69 @@ def minlen_states(cfg, var, extra, sources=None, base=0):
                     if (isinstance(x, ast.Name) and x.id == base_name and isinstance(x.ctx, ast.Store) and not isinstance(getattr(x, '_parent', None), ast.Subscript)) \
                             or (norm(x) == var and isinstance(getattr(x, 'ctx', None), ast.Store)):
                         b = 0
-                        if sources and isinstance(a, ast.Assign) and norm(a.value) in sources and norm(t) == var:
-                            b = sources[norm(a.value)]
+                        if sources and isinstance(a, ast.Assign) and norm(t) == var:
+                            b = source_bound(sources, norm(a.value))
                         rebinds[n] = b
         if n.kind == 'stmt' and isinstance(a, ast.AugAssign) and not isinstance(a.op, ast.Add):
             if any(norm(x) == var or (isinstance(x, ast.Name) and x.id == base_name) for x in ast.walk(a.target)):
                 rebinds[n] = 0
+        if n.kind == 'stmt' and isinstance(a, ast.AugAssign) and isinstance(a.op, ast.Add) and norm(a.target) == var:
+            k = pad_to(a.value, var)
+            if k is not None:
+                pads[n] = k
         if n.kind == 'for' and any(isinstance(x, ast.Name) and x.id == base_name for x in ast.walk(a.target)):
             rebinds[n] = 0
-    state = {cfg.entry: base}
-    work = [cfg.entry]
-    while work:
-        n = work.pop()
-        cur = state[n]
-        out = cur
-        if n in rebinds:
-            out = rebinds[n]
-        out = max(0, out - pops.get(n, 0) - dels.get(n, 0))
-        for m, lab in n.succ:
-            v = out
-            if (n, lab) in guards:
-                # the guard was evaluated on the value before pops in the same node only if it is a pure test
-                v = max(v, guards[(n, lab)] - pops.get(n, 0))
-            old = state.get(m)
-            new = v if old is None else min(old, v)
-            if old is None or new < old:
-                state[m] = new
-                work.append(m)
+    # path sensitivity for boolean flags that never change inside the function (`check_status and len(rsp) < 12` followed by
+    # `check_status and rsp[10]`): one run per valuation of at most three such flags, prune the contradicting branch edges
+    stored = set()
+    for n in cfg.nodes:
+        if n.ast is not None:
+            for x in ast.walk(n.ast):
+                if isinstance(x, ast.Name) and isinstance(x.ctx, (ast.Store, ast.Del)):
+                    stored.add(x.id)
+    flag_tests = {}
+    for expr, tn in cfg.test_nodes.items():
+        neg = False
+        e = expr
+        if isinstance(e, ast.UnaryOp) and isinstance(e.op, ast.Not):
+            neg, e = True, e.operand
+        if isinstance(e, ast.Name) and e.id not in stored and e.id != base_name:
+            flag_tests.setdefault(e.id, []).append((tn, neg))
+    flags = sorted(f for f, lst in flag_tests.items() if len(lst) >= 2)[:3]
+    merged = {}
+    for bits in range(1 << len(flags)):
+        pruned = set()
+        for i, f in enumerate(flags):
+            val = bool(bits >> i & 1)
+            for tn, neg in flag_tests[f]:
+                truth = (not val) if neg else val
+                pruned.add((tn, 'false' if truth else 'true'))
+        state = {cfg.entry: base}
+        work = [cfg.entry]
+        while work:
+            n = work.pop()
+            cur = state[n]
+            out = cur
+            if n in rebinds:
+                out = rebinds[n]
+            out = max(0, out - pops.get(n, 0) - dels.get(n, 0))
+            if n in pads:
+                out = max(out, pads[n])
+            for m, lab in n.succ:
+                if (n, lab) in pruned:
+                    continue
+                v = out
+                if (n, lab) in guards:
+                    # the guard was evaluated on the value before pops in the same node only if it is a pure test
+                    v = max(v, guards[(n, lab)] - pops.get(n, 0))
+                old = state.get(m)
+                new = v if old is None else min(old, v)
+                if old is None or new < old:
+                    state[m] = new
+                    work.append(m)
+        for n, v in state.items():
+            merged[n] = v if n not in merged else min(merged[n], v)
+    state = merged
     return state, pops
 
 
@@ -300,6 +454,31 @@ def check(report, prog, func, var, rule, what_source, base=0, sources=None, coll
             report.ok(rule, k, func.loc(node), detail='inside a handler for %s' % excs[0])
             continue
         target = cfg_node_for(cfg, node)
+        if isinstance(need, tuple):
+            # v[k] with k a local name: a test `len(v) > k` / `k < len(v)` must hold on every path, k (and v) unchanged since
+            kname = need[1]
+            tests_ = [(tn, 'true') for e, tn in cfg.test_nodes.items() if norm(e) in ('len(%s) > %s' % (var, kname), '%s < len(%s)' % (kname, var))] + \
+                     [(tn, 'false') for e, tn in cfg.test_nodes.items() if norm(e) in ('len(%s) <= %s' % (var, kname), '%s >= len(%s)' % (kname, var))]
+            from .q import assign_nodes
+            okk = bool(tests_) and target not in cfg.reachable(cfg.entry, avoid_edges=tests_)
+            if okk:
+                for a_ in list(assign_nodes(cfg, kname)) + list(kills):
+                    if a_ in cfg.reachable() and any(target in cfg.reachable(a_, avoid_edges=tests_) for _ in [0]) and a_ is not target:
+                        okk = False
+            loop_idx = any(isinstance(a, (ast.For, ast.comprehension)) and any(isinstance(x, ast.Name) and x.id == kname for x in ast.walk(a.target))
+                           and 'len(%s)' % var in norm(a.iter) for a in ancestors(node))
+            okk = okk or loop_idx
+            exc = excs[0]
+            msg = '`%s` needs len(%s) > %s but no such test holds on every path: a short %s raises %s' % (what, var, kname, what_source, exc)
+            k2 = key(func.qname, '%s is long enough for' % var, what)
+            if collect is not None:
+                if okk:
+                    report.ok(rule, k2, func.loc(node), detail='relational guard')
+                else:
+                    collect.setdefault(func.qname, []).append((node, exc, '%s [%s]' % (what, msg)))
+                continue
+            report.check(okk, rule, k2, func.loc(node), '%s: %s' % (func.qname, msg))
+            continue
         have = states.get(target)
         if have is None:
             have = 0        # unreachable in the CFG: be conservative
@@ -317,7 +496,28 @@ def check(report, prog, func, var, rule, what_source, base=0, sources=None, coll
                 collect.setdefault(func.qname, []).append((node, exc, '%s [%s]' % (what, msg)))
             continue
         report.check(have >= need, rule, k, func.loc(node), '%s: %s' % (func.qname, msg), detail='need %d have %d' % (need, have))
-    return len(rs)
+    ex = exact_unpacks(func, var)
+    if ex:
+        ups = maxlen_states(cfg, var)
+    for node, size, what in ex:
+        k = key(func.qname, '%s has exactly the length of the format in' % var, what)
+        if handled(node, func, ('error', 'struct.error', 'Exception')):
+            report.ok(rule, k, func.loc(node), detail='inside a handler for struct.error')
+            continue
+        target = cfg_node_for(cfg, node)
+        lo = states.get(target) or 0
+        hi = ups.get(target, INF)
+        okk = lo >= size and hi <= size
+        msg = '`%s` needs len(%s) == %d but only %d <= len <= %s is established on every path: %s of another length raises struct.error' % (
+            what, var, size, lo, 'unbounded' if hi >= INF else hi, what_source)
+        if collect is not None:
+            if okk:
+                report.ok(rule, k, func.loc(node), detail='len == %d' % size)
+            else:
+                collect.setdefault(func.qname, []).append((node, 'struct.error', '%s [%s]' % (what, msg)))
+            continue
+        report.check(okk, rule, k, func.loc(node), '%s: %s' % (func.qname, msg))
+    return len(rs) + len(ex)
 
 
 def check_none(report, prog, func, var, rule, what_source, collect=None):
